@@ -170,6 +170,11 @@ Definition CONFLICTS := Eval vm_compute in map show (conflicts program).
 Print CONFLICTS.
 Definition ATOMICDEFECTS := Eval vm_compute in map show (atomic_update_defects program).
 Print ATOMICDEFECTS.
+Definition ATOMICPARSE := Eval vm_compute in
+  map (fun fs : string * site => "SHARED MUTABLE STATE between parses: " ++ sa (snd fs) ++ " of " ++ sl (s_loc (snd fs)) ++ " in " ++ fst fs
+                                 ++ " at " ++ s_pos (snd fs) ++ " is reachable from parsley.Parse/Evaluate")
+      (atomic_sites program KParse).
+Print ATOMICPARSE.
 Definition UNCLASSIFIED := Eval vm_compute in unclassified program.
 Print UNCLASSIFIED.
 Definition COUNTS := Eval vm_compute in (N.of_nat (length (reach program KParse)), N.of_nat (length (reach program KCtor)),
@@ -235,7 +240,7 @@ def run_workload(exe, args, procs=None, timeout=1200):
 
 def static_part(problems):
     """Extractor + generated obligations.  Returns a dict; 'fatal' set when the source cannot be analysed."""
-    st = {"race_free": False, "updates_atomic": False, "conflicts": None, "discharged": [], "undischarged": [], "assumptions": [], "stats": {}}
+    st = {"race_free": False, "updates_atomic": False, "solo": False, "conflicts": None, "discharged": [], "undischarged": [], "assumptions": [], "stats": {}}
     ok, out, exe = build_extractor()
     if not ok:
         st["fatal"] = "cannot build the extractor tools/effects:\n" + out[-3000:]
@@ -278,7 +283,8 @@ def static_part(problems):
         st["undischarged"] += anames
         st["atomic_log"] = aout[-2000:]
     if rrc == 0:
-        st["conflicts"] = (strings_of(rout, "CONFLICTS") or []) + (strings_of(rout, "ATOMICDEFECTS") or [])
+        st["conflicts"] = ((strings_of(rout, "CONFLICTS") or []) + (strings_of(rout, "ATOMICDEFECTS") or []) +
+                           (strings_of(rout, "ATOMICPARSE") or []))
         st["unclassified"] = strings_of(rout, "UNCLASSIFIED")
         m = re.search(r"COUNTS\s*=\s*\((\d+)(?:%N)?, (\d+)(?:%N)?, (\d+)(?:%N)?, (\d+)(?:%N)?, (\d+)(?:%N)?\)", rout)
         if m:
@@ -294,13 +300,14 @@ def static_part(problems):
         src, sout = coqc("EffectsCheckSolo.v")
         solo = ["parse_threads_use_no_atomics", "C14_program_parse_same_as_alone"]
         if src == 0:
+            st["solo"] = True
             st["discharged"] += solo
             st["assumptions"] += re.findall(r"Closed under the global context|Axioms:.*", sout)
         else:
+            # a sync/atomic access reachable from Parse/Evaluate touches state shared between parses: no data race, but
+            # "the runs share no mutable state / each run returns the same result as when executed alone" is not proved
             st["undischarged"] += solo
             st["solo_log"] = sout[-2000:]
-            core.log("C14: NOTE parse-reachable code uses sync/atomic: 'same result as alone' is proved for non-atomic "
-                     "reads only (EffectsCheckSolo.v not discharged)")
     else:
         st["undischarged"] += names + ["parse_threads_use_no_atomics", "C14_program_parse_same_as_alone"]
         st["check_log"] = cout[-3000:]
@@ -337,7 +344,7 @@ def main(tier, seed, replay=None):
     # (b) workload build in parallel with the extractor and the generated obligations
     with ThreadPoolExecutor(max_workers=2) as ex:
         fw = ex.submit(build_workload)
-        st = static_part(problems) if ok else {"race_free": False, "updates_atomic": False, "conflicts": None, "discharged": [],
+        st = static_part(problems) if ok else {"race_free": False, "updates_atomic": False, "solo": False, "conflicts": None, "discharged": [],
                                                "undischarged": [], "assumptions": [], "stats": {}}
         wok, wout, wexe = fw.result()
     if st.get("fatal"):
@@ -346,9 +353,11 @@ def main(tier, seed, replay=None):
     if not wok:
         print("ERROR: cannot build the race workload against %s:\n%s" % (core.REPO, wout[-3000:]))
         return 2
-    static_ok = st["race_free"] and st["updates_atomic"]
-    core.log("C14: build + static part %.1fs; generated obligations: effects_race_free %s, effects_updates_atomic %s" % (
-        time.time() - t0, "holds" if st["race_free"] else "FAILS", "holds" if st["updates_atomic"] else "FAILS"))
+    static_ok = st["race_free"] and st["updates_atomic"] and st["solo"]
+    hf = lambda b: "holds" if b else "FAILS"
+    core.log("C14: build + static part %.1fs; generated obligations: effects_race_free %s, effects_updates_atomic %s, "
+             "parse_threads_use_no_atomics %s" % (time.time() - t0, hf(st["race_free"]), hf(st["updates_atomic"]),
+                                                  hf(st["solo"]) if st["race_free"] else "not attempted"))
     conflicts = dedupe(st.get("conflicts"))
     for c in conflicts[:20]:
         core.log("C14: static conflict: " + c)
@@ -371,12 +380,13 @@ def main(tier, seed, replay=None):
             r = run_workload(wexe, case.split(), None)
             r["corpus"] = meta.get("file")
             runs.append(r)
-            if r["race"] or (r["result"] or {}).get("construction", {}).get("failures"):
+            if r["race"] or (r["result"] or {}).get("construction", {}).get("failures") or (r["result"] or {}).get("mismatches"):
                 break
-    if not (r and (r["race"] or (r["result"] or {}).get("construction", {}).get("failures"))):
+    if not (r and (r["race"] or (r["result"] or {}).get("construction", {}).get("failures") or (r["result"] or {}).get("mismatches"))):
         r = run_workload(wexe, args, procs)
         runs.append(r)
-    failed_dyn = lambda x: x["race"] or bool((x["result"] or {}).get("construction", {}).get("failures"))
+    failed_dyn = lambda x: (x["race"] or bool((x["result"] or {}).get("construction", {}).get("failures")) or
+                            bool((x["result"] or {}).get("mismatches")))
     if not static_ok and ok and not failed_dyn(r) and not replay:
         # search harder for a concrete failing schedule: more goroutines, other seeds
         for k in range(1, 4):
@@ -431,6 +441,8 @@ def main(tier, seed, replay=None):
         path = core.write_replay(ID, {
             "property": ID, "kind": "concurrent-result-differs-from-solo-result",
             "first_mismatch": x["result"].get("first_mismatch"), "mismatches": x["result"].get("mismatches"),
+            "static_obligations": {"effects_race_free": hf(st["race_free"]), "effects_updates_atomic": hf(st["updates_atomic"]),
+                                   "parse_threads_use_no_atomics": hf(st["solo"])},
             "workload_args": x["args"], "workload_cmd": cmd(x), "static_conflicts": conflicts[:50], "repo": core.REPO,
             "replay_cmd": "./check %s --replay <this file>" % ID})
         print("VIOLATION property=%s replay=%s" % (ID, path))
@@ -443,8 +455,13 @@ def main(tier, seed, replay=None):
             "property": ID, "kind": "obligation-broken",
             "obligation": "%s  (work/C14, summary generated from %s)" % (
                 " and ".join(([] if st["race_free"] else ["effects_race_free : conflicts program = []"]) +
-                             ([] if st["updates_atomic"] else ["effects_updates_atomic : atomic_update_defects program = []"])), core.REPO),
-            "conflicting_sites": conflicts[:100], "coq_log": (st.get("check_log", "") + st.get("atomic_log", ""))[-3000:],
+                             ([] if st["updates_atomic"] else ["effects_updates_atomic : atomic_update_defects program = []"]) +
+                             ([] if st["solo"] or not st["race_free"] else
+                              ["parse_threads_use_no_atomics : atomic_sites program KParse = [] (hence C14_program_parse_same_as_alone: "
+                               "code reachable from Parse/Evaluate accesses state shared between parses through sync/atomic; no data race, "
+                               "but the runs share mutable state and 'same result as when executed alone' is not proved)"])), core.REPO),
+            "undischarged_obligations": st["undischarged"],
+            "conflicting_sites": conflicts[:100], "coq_log": (st.get("check_log", "") + st.get("atomic_log", "") + st.get("solo_log", ""))[-3000:],
             "search": "race workload found no detector report in %d runs: %s" % (len(runs), [x["args"] for x in runs]),
             "problems": problems, "repo": core.REPO})
         print("VIOLATION property=%s replay=%s no-failing-input-found" % (ID, path))
